@@ -160,6 +160,30 @@ def structure_obligations():
                             rows.append(dict(kind="device_slot_access", cls=cname, prop=pn, got=f"{ins.op} {[str(v) for v in vals]}"))
                 except Exception as e:
                     rows.append(dict(kind="slot_access_raises", cls=cname, prop=pn, detail=f"{type(e).__name__}: {e}"))
+        # (2c) every slot property (numbered slotN and named alias) of the singular form denotes the same slot
+        # number on the plural and on the name-filtered plural form; slotN is slot N on all three
+        if plural is not None:
+            try:
+                sing = cls("d0")
+                for pn, d in tables.all_props(cname).items():
+                    if d[0] not in ("slot", "alias"):
+                        continue
+                    want = getattr(getattr(sing, pn), "_slot_index", None)
+                    if pn.startswith("slot") and pn[4:].isdigit():
+                        n += 1
+                        if want != int(pn[4:]):
+                            rows.append(dict(kind="slot_number_name", cls=cname, prop=pn, index=want))
+                    for holder, hn in ((inst, "plural"), (inst["probe name"], "named plural")):
+                        n += 1
+                        try:
+                            got = getattr(getattr(holder, pn), "_slot_index", None)
+                        except Exception as e:
+                            rows.append(dict(kind="plural_slot_raises", cls=cname, prop=pn, form=hn, detail=f"{type(e).__name__}: {e}"))
+                            continue
+                        if got != want or want is None:
+                            rows.append(dict(kind="plural_slot_number", cls=cname, prop=pn, form=hn, want=want, got=got))
+            except Exception as e:
+                rows.append(dict(kind="plural_slot_raises", cls=cname, detail=f"{type(e).__name__}: {e}"))
         # (3) named slots resolve to their numbered slot; logic properties carry their own name
         try:
             obj = cls("d0")
